@@ -22,7 +22,7 @@ from mc.harness import Tally, digest
 LEVEL = "model_checking"
 TECHNIQUE = "explicit-state BFS over operation histories on the real module globals, canonical-state dedup, dict reference model compared on every transition"
 CLAIM = (
-    "Every history of set / update_defaults / refresh / device requests / with-set events up to depth 3 (quick) or 4 "
+    "Every history of set / update_defaults / refresh / device requests / with-set events up to depth 3 over the full alphabet (both tiers) and, in the thorough tier, up to depth 4 over the core alphabet (the events without the round-6 key / value content members) "
     "(thorough) from the import-time state is executed on the real config module; after every transition get() on the "
     "whole key universe in both '-'/'_' spellings equals a nested-dict reference model, refresh equals the merge of the "
     "accumulated defaults, rejected device requests leave device and store unchanged, and leaving `with set(...)` restores "
@@ -98,6 +98,7 @@ def build_events():
         ("with", {"a.b": 8, "a": {"b": 16}}, None),
         ("with", {"w.k": 1}, None, {"w__k": 2}),
     ]
+    ev.append(("__core_end__",))
     # content of keys and values: keys that differ from another key only in CASE (distinct entries: only '-' and '_' are one
     # spelling), keys that look like numbers / hold a space / are not ASCII, FALSY values (0, "", False, an empty mapping
     # is left out: what get returns for it is not prescribed), and a BaseException that is no Exception leaving a block
@@ -108,7 +109,10 @@ def build_events():
     return ev
 
 
-EVENTS = build_events()
+_ALL = build_events()
+_CUT = _ALL.index(("__core_end__",))
+CORE_EVENTS = _ALL[:_CUT]  # the alphabet explored one level deeper in the thorough tier
+EVENTS = _ALL[:_CUT] + _ALL[_CUT + 1 :]
 
 
 # ----------------------------------------------------------------------------- reference model
@@ -482,8 +486,9 @@ def run_history(hist, check_every=True):
     return I, M, fails
 
 
-def shard(first, depth=3):
-    """BFS of depth `depth` below the state reached by history `first` (a list of events)."""
+def shard(first, depth=3, core=False):
+    """BFS of depth `depth` below the state reached by history `first` (a list of events); core=True: over CORE_EVENTS."""
+    EVS = CORE_EVENTS if core else EVENTS
     I = impl()
     t = Tally()
     res = BfsResult()
@@ -497,7 +502,7 @@ def shard(first, depth=3):
         for d in range(depth):
             nxt = []
             for hist, blob, model in frontier:
-                for ev in EVENTS:
+                for ev in EVS:
                     I.load(blob)
                     M2 = model.copy()
                     fl = []
@@ -585,13 +590,22 @@ def run(ctx):
     I.restore_base()
     depth = 3 if ctx.quick else 4
     # depth-1 prefix = every single event; each shard explores `depth-1` further levels
-    firsts = [[]] if depth <= 1 else [[ev] for ev in EVENTS]
-    ctx.say(f"{len(EVENTS)} events, BFS depth {depth} sharded by first event")
+    # every history up to depth 3 over the FULL alphabet (both tiers) ...
+    firsts = [[ev] for ev in EVENTS]
+    ctx.say(f"{len(EVENTS)} events, BFS depth 3 sharded by first event" + ("" if ctx.quick else f"; {len(CORE_EVENTS)} core events, BFS depth 4"))
     # root transitions (depth 1) are covered inside shard() by run_history(first)
-    merged = ctx.pmap(shard, firsts, chunk=1, label="bfs", depth=depth - 1)
+    merged = ctx.pmap(shard, firsts, chunk=1, label="bfs", depth=2)
     states = set()
     states |= merged.outcomes
     transitions = int(merged.extra["transitions"]) + len(firsts)
+    if not ctx.quick:
+        # ... and, in the thorough tier, every history up to depth 4 over the core alphabet (the events without the
+        # key / value CONTENT members added in round 6: with them depth 4 does not fit the wall-clock ceiling)
+        firsts4 = [[ev] for ev in CORE_EVENTS]
+        m4 = ctx.pmap(shard, firsts4, chunk=1, label="bfs depth 4 (core alphabet)", depth=3, core=True)
+        states |= m4.outcomes
+        transitions += int(m4.extra["transitions"]) + len(firsts4)
+        merged.extra["transitions"] += m4.extra["transitions"]
     # deeper histories by deviation bounding: length-8 default history, at most b positions replaced by any other event
     import itertools
 
